@@ -23,8 +23,10 @@ a = sh(f"git apply {src/'patch.diff'}")
 res["applies"] = a.returncode == 0
 b = sh("go build ./... && go vet ./server/... ./client/... ./pkg/...", timeout=900)
 res["builds"] = b.returncode == 0
+(dest / demo.name).unlink()
 t = sh("go test -vet=off -count=1 $(go list ./... | grep -v /test/) 2>&1 | tail -60", timeout=1500)
 res["unit_tests_pass"] = ("FAIL" not in t.stdout) and t.returncode == 0
+shutil.copy(demo, dest / demo.name)
 r = sh(meta["demo_cmd"], timeout=900)
 res["demo_with_change"] = "fail" if r.returncode != 0 else "PASS(!)"
 res["demo_with_tail"] = (r.stdout + r.stderr)[-600:]
